@@ -1275,11 +1275,17 @@ vh_run(const VhTok* tape, size_t n, VhReport* rep)
     // in some cases the process already has ~260 descriptors open, so that the devices' files get numbers >= 256
     std::vector<int> dummies;
     if (n && vh_mix64(tape[0].a * 31u + tape[0].kind * 7u + 3) % 6 == 0) {
-        for (int k = 0; k < 262; ++k) {
-            int fd = ::open("/dev/null", O_RDWR); // (writable: a write that goes astray succeeds silently)
+        // every number below 300 is taken afterwards, in the generating process and in a replay alike: the next
+        // descriptor the device opens is 300 wherever the case runs
+        for (;;) {
+            // (a writable file of this case's own: a write that goes astray succeeds silently, and a lock that goes
+            // astray cannot collide with another process, as it would on /dev/null)
+            int fd = ::open((x.dir + "/.other-open-file").c_str(), O_RDWR | O_CREAT, 0644);
             if (fd < 0)
                 break;
             dummies.push_back(fd);
+            if (fd >= 299)
+                break;
         }
         x.c.cls(CL_MANY_FDS);
     }
